@@ -35,6 +35,17 @@ func vprogRun(ctx contract.KContext) (*contract.Response, error) {
 			if err := ctx.Del(op[1], []byte(op[2])); err != nil {
 				return nil, err
 			}
+		case "pad": // ["pad", bucket, prefix, count]: count puts of one byte under prefix-0000 ... (bulk writes of a big block)
+			var n int
+			if len(op) < 4 {
+				return nil, fmt.Errorf("vprog: bad op %v", op)
+			}
+			fmt.Sscan(op[3], &n)
+			for i := 0; i < n; i++ {
+				if err := ctx.Put(op[1], []byte(fmt.Sprintf("%s-%04d", op[2], i)), []byte("x")); err != nil {
+					return nil, err
+				}
+			}
 		case "fail":
 			return nil, fmt.Errorf("vprog: fail")
 		default:
